@@ -255,6 +255,8 @@ int main(int argc, char *argv[])
 		}
 	}
 
-	exit(err);
+	/* Exit status is the number of errors, but only 8 bits of it reach
+	 * the parent: never let a multiple of 256 look like success. */
+	exit(err > 255 ? 255 : err);
 }
 
